@@ -226,6 +226,13 @@ func build(fields modbus.Fields, usage int, sel uint64) *modbus.Builder {
 		if len(mine) > 0 {
 			mine[0].Address ^= 0x0100
 		}
+	case 4: // the plan is asked for early, then more fields arrive in bulk: the next plan has them all
+		k := len(fields) / 2
+		b.AddAll(append(modbus.Fields{}, fields[:k]...))
+		for _, t := range Targets {
+			mon.Catch(func() { _, _ = t.call(b) })
+		}
+		b.AddAll(append(modbus.Fields{}, fields[k:]...))
 	case 3: // two builders seeded from the same slice
 		src := make(modbus.Fields, len(fields), len(fields)+8)
 		copy(src, fields)
@@ -241,7 +248,7 @@ func observe(c *Case, r *mon.Rec, t target, fields modbus.Fields) {
 	r.Eval(1)
 	usage := 0
 	if c.Kind == "random" {
-		usage = int(uint64(c.Seed) % 4)
+		usage = int(uint64(c.Seed) % 5)
 	}
 	b := build(fields, usage, uint64(c.Seed)>>3)
 	if c.Kind == "random" && (uint64(c.Seed)>>5)%3 == 0 {
